@@ -283,7 +283,7 @@ class XMIResource(Resource):
                     opposite.append((eobject, ref, value))
                     continue
                 if ref.many:
-                    values = (self.normalize(x) for x in value.split())
+                    values = self._split_references(value)
                 else:
                     values = (value,)
                 for value in values:
@@ -313,6 +313,18 @@ class XMIResource(Resource):
             if not resolved_value:
                 raise ValueError(f'EObject for {value} is unknown')
             eobject.__setattr__(ref._name, resolved_value)
+
+    def _split_references(self, value):
+        # a reference can be written 'prefix:Type uri#fragment' (this is how
+        # save() writes a reference to an element of a registered metamodel):
+        # the type only qualifies the URI that follows it
+        tokens = value.split()
+        for i, token in enumerate(tokens):
+            if '#' not in token and ':' in token \
+                    and '#' in ''.join(tokens[i + 1:i + 2]) \
+                    and token.split(':')[0] in self.prefixes:
+                continue
+            yield token
 
     @lru_cache()
     def _resolve_nonhref(self, path):
